@@ -68,11 +68,11 @@ Matches(o) == ObsVal(o) = Proj' /\ Len(o.runs) = Cardinality(runs')
 BySpelling == "service-bookkeeping-keyed-by-spelling" \in flags
 InRegion(a) == CASE a.a \in {"define", "push"} -> ConflictOK(a.c, DeclOf(a.d)) /\ ~(BySpelling /\ SpellingCollision(DeclOf(a.d)))
                  [] a.a = "reload" -> /\ ContentOK(a.c, DefsOf(a.defs)) /\ ContentOK(Module, DefsOf(a.mdefs))
-                                      /\ ~(BySpelling /\ SpellingCollisionIn(DefsOf(a.defs) \o DefsOf(a.mdefs)))
-                 [] a.a = "boot" -> ~(BySpelling /\ SpellingCollisionIn(DefsOf(a.d1) \o DefsOf(a.d2)))
+                                      /\ ~(BySpelling /\ SpellingCollisionIn(DefsOf(a.defs) \o DefsOf(a.mdefs), {a.c}))
+                 [] a.a = "boot" -> ~(BySpelling /\ SpellingCollisionIn(DefsOf(a.d1) \o DefsOf(a.d2), {}))
                  \* what a module that was imported by a session cell and never started does later is not modelled
                  \* (named deviation): the recording is judged up to that import
-                 [] a.a = "import" -> /\ ContentOK(Module, DefsOf(a.mdefs)) /\ ~(BySpelling /\ SpellingCollisionIn(DefsOf(a.mdefs)))
+                 [] a.a = "import" -> /\ ContentOK(Module, DefsOf(a.mdefs)) /\ ~(BySpelling /\ SpellingCollisionIn(DefsOf(a.mdefs), {}))
                                       /\ ~(SessionImportDelays(a.c, a.via) /\ Module \notin loaded /\ ~a.fail)
                  [] a.a = "call"   -> (hd[a.s] # 0 /\ G[hd[a.s]].d.resp = "only") => a.rr
                  [] OTHER -> TRUE
